@@ -96,10 +96,12 @@ void rtr_purge_outdated_records(struct rtr_socket *rtr_socket)
 	if (rtval == -1 || (rtr_socket->last_update + rtr_socket->expire_interval) < cur_time) {
 		if (rtval == -1)
 			RTR_DBG1("get_monotic_time(..) failed");
+		rtr_table_update_lock();
 		pfx_table_src_remove(rtr_socket->pfx_table, rtr_socket);
 		RTR_DBG1("Removed outdated records from pfx_table");
 		spki_table_src_remove(rtr_socket->spki_table, rtr_socket);
 		RTR_DBG1("Removed outdated router keys from spki_table");
+		rtr_table_update_unlock();
 		rtr_socket->request_session_id = true;
 		rtr_socket->serial_number = 0;
 		rtr_socket->last_update = 0;
@@ -239,8 +241,10 @@ void rtr_stop(struct rtr_socket *rtr_socket)
 		rtr_socket->request_session_id = true;
 		rtr_socket->serial_number = 0;
 		rtr_socket->last_update = 0;
+		rtr_table_update_lock();
 		pfx_table_src_remove(rtr_socket->pfx_table, rtr_socket);
 		spki_table_src_remove(rtr_socket->spki_table, rtr_socket);
+		rtr_table_update_unlock();
 		rtr_socket->thread_id = 0;
 		rtr_socket->state = RTR_CLOSED;
 	}
